@@ -8,7 +8,7 @@ CONSTANTS
   AllowExcl = TRUE
   AllowCat3 = FALSE
   AllowReuse = FALSE
-  Extras = FALSE
+  Extras = "no"
   AllowFindings = FALSE
   MAllowFindings = FALSE
   Conv1dExport = "pinned"
